@@ -144,7 +144,7 @@ def check_case(ctx, specs, td, repeat=None, form="str"):
                        "got": str(got[i])[:300] if i < len(got) else None, "kinds": kinds,
                        "has_colortbl": has_ct, "mech": mech})
         return
-    # geometry of the first page of every input
+    # geometry of the first page of every input: what is STATED there ...
     pos = 0
     for k, d in enumerate(docs):
         ctx.count("geometry_checks")
@@ -153,6 +153,27 @@ def check_case(ctx, specs, td, repeat=None, form="str"):
         if g != w:
             ctx.violation(f"input {k} starts with geometry {g}, its own is {w}", case,
                           {"input": k, "got": g, "want": w})
+        pos += len(d.pages)
+    # ... and what is IN EFFECT there: a reader keeps paper size and margins until they are restated, and starts
+    # from RTF's own defaults (which are not zero)
+    RTF_DEFAULTS = {"paperw": 12240, "paperh": 15840, "margl": 1800, "margr": 1800, "margt": 1440, "margb": 1440}
+
+    def effective(pages_setup):
+        cur = dict(RTF_DEFAULTS)
+        out = []
+        for st in pages_setup:
+            cur = dict(cur)
+            cur.update({k2: v for k2, v in st.items() if k2 in RTF_DEFAULTS})
+            out.append(cur)
+        return out
+    eff = effective([doc.setup] + [pg.setup for pg in doc.pages[1:]])
+    pos = 0
+    for k, d in enumerate(docs):
+        own = effective([d.setup])[0]
+        if pos < len(eff) and eff[pos] != own:
+            ctx.violation(f"input {k}: geometry in effect on its first page {eff[pos]} differs from the geometry in "
+                          f"effect when it is read alone {own}", case, {"input": k, "got": eff[pos], "want": own})
+            break
         pos += len(d.pages)
 
 
